@@ -595,6 +595,12 @@ class Frame:
             if name in LIBM1 or name in LIBM2 or name in ('fabs', 'abs', 'floor', 'ceil', 'copysign', 'trunc', 'isnan', 'isfinite', 'hypot'):
                 av = [self.ev(a, pc) for a in args]
                 return B.libm(name, av, pc, e[3])
+            if name.startswith('svd2_'):
+                av = [self.ev(a, pc) for a in args]
+                fn = 'f_' + name
+                B.funs[fn] = (['Real'] * len(av), 'Real')
+                B.note('Eigen::JacobiSVD of a 2x2 matrix: results are uninterpreted functions of its coefficients; the spec states the assumed contract')
+                return app(fn, *av)
             if name.startswith('affine_solve'):
                 av = [self.ev(a, pc) for a in args]
                 return B.affine_solve(int(name[len('affine_solve'):]), av)
